@@ -13,8 +13,8 @@ import impl
 from framework import Case, Finding
 
 PROP = "C19"
-GENERATED = ['Guards', 'SrcDecorate', 'EvalLoop', 'OpSemantics', 'Core', 'SrcDeps', 'Wrapper', 'Decorate', 'HintLoop']  # generated files this check's tie depends on
-LEAN_MODULES = ["Properties.C19", "Properties.Prov.Decorate", "Properties.CoreEval", "Properties.Tables", "Properties.Core", "Properties.Prov.Deps", "Properties.CoreWrap", "Properties.CoreDecorate", "Properties.CoreHints"]
+GENERATED = ['Guards', 'SrcDecorate', 'EvalLoop', 'OpSemantics', 'Core', 'SrcDeps', 'Wrapper', 'Decorate', 'HintLoop', 'Resolve']  # generated files this check's tie depends on
+LEAN_MODULES = ["Properties.C19", "Properties.Prov.Decorate", "Properties.CoreEval", "Properties.Tables", "Properties.Core", "Properties.Prov.Deps", "Properties.CoreWrap", "Properties.CoreDecorate", "Properties.CoreHints", "Properties.CoreResolve"]
 NEEDS_DTYPES = False
 LEVEL = "proof"
 RULE = (
